@@ -87,6 +87,7 @@ def run(ctx):
             fails.append(("a quarter of the residues are protein-only letters but detect_alphabet says %s" % d, dict(histogram={chr(i): n for i, n in enumerate(h) if n})))
     # end to end
     cases = []
+    arr_sets = []
     nset = 10 if ctx.quick else 80
     for i in range(nset):
         kind = rng.choice(["dna", "rna", "protein"])
@@ -127,6 +128,7 @@ def run(ctx):
             rows = c04.gap_rows(rng, ln, 0.02)
             pres.append(("msf long names", c04.render_msf(_random.Random(rng.getrandbits(30)), rows)))
             pres.append(("clustal long names", c04.render_clustal(_random.Random(rng.getrandbits(30)), rows)))
+        arr_sets.append((exp, [q for _, q in recs if q]))
         for tag, txt in pres:
             for t in (5, 0 if exp == 1 else 3, 3 if exp == 1 else 0):
                 c = Case(recs, t, fmt="msf", intext=txt, tag="%s type=%d" % (tag, t))
@@ -184,6 +186,43 @@ def run(ctx):
         else:
             ctx.count("large_inputs_ok")
         os.remove(path)
+    # the in-memory entry point (kalign_arr_to_msa / kalign()): the class it concludes, and which --type values kalign() then accepts; many calls in
+    # ONE process with the two kinds alternating and sizes varying (each call decides on its own strings only), in the sanitizer build (fresh heap
+    # blocks are poisoned) and in the plain build (freed blocks are handed out again at once)
+    for j in range(4 if ctx.quick else 30):
+        big = gen.rand_seq(rng, "ACGTN" if j % 2 else "DEFHIKLMPQRSVWY", rng.choice([400, 3000]))
+        arr_sets.insert(rng.randrange(len(arr_sets) + 1), (1 if j % 2 else 0, [big] * rng.randint(2, 4)))
+    order = list(arr_sets)
+    alt = sorted(order, key=lambda e: e[0])
+    half = len(alt) // 2
+    inter = [x for pair in zip(alt[:half], reversed(alt[half:])) for x in pair]          # protein, nucleotide, protein, ...
+    arr_lines, arr_meta = [], []
+    for exp, seqs in order + inter:
+        if not seqs:
+            continue
+        arr_lines.append("arr_detect " + " ".join(seqs))
+        arr_meta.append(("detect", exp, seqs))
+        fit, unfit = (rng.choice([0, 1, 2]), rng.choice([3, 4])) if exp == 1 else (rng.choice([3, 4]), rng.choice([0, 1, 2]))
+        for t in (fit, unfit, 5):
+            arr_lines.append("kalign_arr %d -1 -1 -1 %d - 0 %s" % (t, rng.choice([1, 4]), " ".join(seqs)))
+            arr_meta.append(("fit" if t != unfit else "unfit", exp, seqs))
+    for label, hv, env_ in (("sanitizer build", kvh, C.SAN_ENV), ("plain build", C.build_harness("plain"), {})):
+        rc_, oa, ea = C.run_lines(hv, arr_lines, env=env_, timeout=1200)
+        for k, (what, exp, seqs) in enumerate(arr_meta):
+            ctx.evaluations += 1
+            o = oa[k] if k < len(oa) else "<no output: crash>"
+            bad = None
+            if what == "detect" and "biotype=%d" % exp not in o:
+                bad = "kalign_arr_to_msa concluded %r for strings of class %d" % (o[:60], exp)
+            elif what == "fit" and not o.startswith("rc=0"):
+                bad = "kalign() rejected a type of the strings' own kind (class %d): %r" % (exp, o[:60])
+            elif what == "unfit" and o.startswith("rc=0"):
+                bad = "kalign() accepted a type of the other kind (class %d)" % exp
+            if bad:
+                fails.append(("in-memory API, call %d of %d in one process (%s): %s" % (k + 1, len(arr_lines), label, bad),
+                              dict(calls_in_order=[l[:4000] for l in arr_lines[:k + 1]][-12:], stderr=ea[-1500:])))
+                break
+            ctx.count("arr_api_ok")
     sysrun.run_cases(kvh, cases)
     for c in cases:
         ctx.evaluations += 1
